@@ -1,7 +1,7 @@
 """Property -> machinery table.  Each entry lists the Verus units (E1), MAST-lemma units (E2) and
 Kani harnesses (E3) that decide the property, plus the explicit not-decided list."""
 
-UNIT_RLIMIT = {'executor': 150, 'masm_u64': 150}
+UNIT_RLIMIT = {'executor': 150, 'masm_u64': 150, 'masm_u64_div': 300}
 
 T_FELT = 'T1 field model prelude/felt.rs: assumed contracts on winter-math BaseElement (new/as_int/add/sub/mul/neg/inv/eq/from) — external crate'
 T_TOOLS = 'T10 Verus 0.2026.09.13, Z3, rustc; machine integers are checked (not mathematical)'
@@ -9,12 +9,21 @@ T_TOOLS = 'T10 Verus 0.2026.09.13, Z3, rustc; machine integers are checked (not 
 T_RPO = 'T4 RPO hash (miden-crypto hash_elements / merge_in_domain) uninterpreted; collision resistance NOT assumed'
 
 PROPS = {
+    'C09': {
+        'level': 'proof',
+        'units': ['masm_u64_div', 'ops_sys'],
+        'kani': [],
+        'trusted_base': [T_FELT, T_TOOLS, 'T7 the host / advice provider is an arbitrary oracle: lemmas quantify over every advice sequence', 'T9 mastdump + lemma generator', 'T2 P prime'],
+        'not_decided': ['u32clz/u32ctz/u32clo/u32cto, ilog2, ext2inv/ext2div expansions (pow2 / EXPACC chains): no lemma yet', 'mtree_get / mtree_set / mtree_verify (op_mpverify, op_mrupdate, Merkle store)', 'honest-host completeness (the hinted values always pass the check)', 'adv_loadw / adv_pipe ordering'],
+        'sample_obligations': ['C09/masm_u64_div/masm::u64::div : for EVERY advice sequence, a completed run leaves floor(a / b); b = 0 never completes',
+                               'C09/ops_sys/Process::op_advpop#ensures : the pushed element is whatever the host returned, nothing else changes'],
+    },
     'C16': {
         'level': 'proof',
-        'units': ['masm_u64'],
+        'units': ['masm_u64', 'masm_u64_div'],
         'kani': [],
         'trusted_base': [T_FELT, T_TOOLS, 'T9 tools/mastdump prints the MAST built by /repo\'s assembler (public API); lib/e2gen.py transcribes it', 'hub spec/opsem.rs operation semantics (the relations the real op_* functions are proved to implement in C05)'],
-        'not_decided': ['u64 procedures without a lemma yet: div, mod, divmod, shl, shr, rotl, rotr, clz, ctz, clo, cto', 'u256 procedures'],
+        'not_decided': ['u64 procedures without a lemma yet: shl, shr, rotl, rotr, clz, ctz, clo, cto', 'u256 procedures'],
         'sample_obligations': ['C16/masm_u64/masm::u64::wrapping_mul : for all u32 limbs and any stack tail, exec(MAST) leaves (a*b) mod 2^64 as limbs and the rest of the stack untouched',
                                'C16/masm_u64/masm::u64::min : result is a if a < b else b'],
     },
